@@ -28,12 +28,14 @@ CHECKS['C03'] = dict(
     design='7 (C03)')
 
 CHECKS['C04'] = dict(
-    technique='Lean 4 model of grammar preparation with theorems (every literal skips, skip rule = Skip over the ignored rules, leading skip only at the start rule, skip maximal) + C01 refinement + correspondence of the preparation model with the real translator + metamorphic lengthening run',
+    technique='Lean 4 model of grammar preparation with theorems (every literal skips, skip rule = Skip over the ignored rules, leading skip only at the start rule, skip maximal) + re-indexing theorem for the lengthening clause + C01 refinement + correspondence of the preparation model with the real translator + metamorphic lengthening run',
     text=('Proof: C04_every_literal_skips, C04_ignored_rule, C04_leading_skip, C04_no_other_skip_point about the Lean model `prepare` of the translator front half; '
           'C04_literal_then_skip and C04_skip_maximal about the specification; the emitted code is covered by C01_codegen_refines_peg. '
           'Tie: for every generated grammar the prepared expression objects of the real translator are compared structurally with `prepare` of the same grammar, and real parse '
-          'results with peg(prepare(grammar)) on all short inputs containing ignorable text in every position. PARTIAL: the lengthening clause is a visible unproved def '
-          '(C04_lengthening_statement) and is exercised on the implementation only (every ignorable run doubled).'),
+          'results with peg(prepare(grammar)) on all short inputs containing ignorable text in every position; the lengthening clause is also run metamorphically on the implementation (every ignorable run doubled). '
+          'C04_lengthening / C04_reindexing: doubling one character w of the input changes no parsed value (an equation of Option values for every expression incl. operator tables: defined together, same outcome, same value, spans and end position moved past the doubled character), '
+          'for an ignore rule Skip over regexes whose matches end at corresponding positions, literals that do not contain w, token regexes that neither match nor look at it and no Backtrack - an instance of a general re-indexing law for strictly monotone position maps (of which the C08 shift law is another). '
+          'PARTIAL: that a concrete regular expression satisfies the stability hypotheses is a fact about the matcher, a parameter of the model.'),
     note='Trusted as for C01; start rule = rule named start (any capitalisation).',
     design='7 (C04)')
 
